@@ -187,18 +187,60 @@ def c14_vep_ins_between(genome: List[int], gs: int, ge: int, ts: int, te: int, p
     return _check(genome, gs, ge, ts, te, 1 if plus else -1, nf, start1, start1 + 1, allele, j)
 
 
-@cond('C14', bounds='insertion reported on one anchor base (allele of 2..3 bases starting or ending with the '
-      'reference base), both strands; ' + _B, encodes=ENC, codes=CODES, tokens=True, timeout=1500, tiers=('thorough',))
-def c14_vep_ins_anchor(genome: List[int], gs: int, ge: int, ts: int, te: int, plus: bool, nf: bool,
+@cond('C14', bounds='insertion reported on one anchor base (allele of 2 bases starting or ending with the '
+      'reference base), plus strand; ' + _B, encodes=ENC, codes=CODES, tokens=True, timeout=1500, tiers=('thorough',))
+def c14_vep_ins_anchor_plus2(genome: List[int], gs: int, ge: int, ts: int, te: int, nf: bool,
                        pos: int, allele: List[int], j: int) -> int:
     """
     pre: len(genome) == 6
     pre: all(65 <= c <= 90 for c in genome)
-    pre: 2 <= len(allele) <= 3
+    pre: len(allele) == 2
     pre: all(65 <= c <= 90 for c in allele)
     post: _ >= 0
     """
-    return _check(genome, gs, ge, ts, te, 1 if plus else -1, nf, pos, pos, allele, j)
+    return _check(genome, gs, ge, ts, te, 1, nf, pos, pos, allele, j)
+
+
+@cond('C14', bounds='insertion reported on one anchor base (allele of 3 bases starting or ending with the '
+      'reference base), plus strand; ' + _B, encodes=ENC, codes=CODES, tokens=True, timeout=1500, tiers=('thorough',))
+def c14_vep_ins_anchor_plus3(genome: List[int], gs: int, ge: int, ts: int, te: int, nf: bool,
+                       pos: int, allele: List[int], j: int) -> int:
+    """
+    pre: len(genome) == 6
+    pre: all(65 <= c <= 90 for c in genome)
+    pre: len(allele) == 3
+    pre: all(65 <= c <= 90 for c in allele)
+    post: _ >= 0
+    """
+    return _check(genome, gs, ge, ts, te, 1, nf, pos, pos, allele, j)
+
+
+@cond('C14', bounds='insertion reported on one anchor base (allele of 2 bases starting or ending with the '
+      'reference base), minus strand; ' + _B, encodes=ENC, codes=CODES, tokens=True, timeout=1500, tiers=('thorough',))
+def c14_vep_ins_anchor_minus2(genome: List[int], gs: int, ge: int, ts: int, te: int, nf: bool,
+                       pos: int, allele: List[int], j: int) -> int:
+    """
+    pre: len(genome) == 6
+    pre: all(65 <= c <= 90 for c in genome)
+    pre: len(allele) == 2
+    pre: all(65 <= c <= 90 for c in allele)
+    post: _ >= 0
+    """
+    return _check(genome, gs, ge, ts, te, -1, nf, pos, pos, allele, j)
+
+
+@cond('C14', bounds='insertion reported on one anchor base (allele of 3 bases starting or ending with the '
+      'reference base), minus strand; ' + _B, encodes=ENC, codes=CODES, tokens=True, timeout=1500, tiers=('thorough',))
+def c14_vep_ins_anchor_minus3(genome: List[int], gs: int, ge: int, ts: int, te: int, nf: bool,
+                       pos: int, allele: List[int], j: int) -> int:
+    """
+    pre: len(genome) == 6
+    pre: all(65 <= c <= 90 for c in genome)
+    pre: len(allele) == 3
+    pre: all(65 <= c <= 90 for c in allele)
+    post: _ >= 0
+    """
+    return _check(genome, gs, ge, ts, te, -1, nf, pos, pos, allele, j)
 
 
 @cond('C14', bounds='substitution of 3 bases by 1..3 bases, both strands; ' + _B, encodes=ENC, codes=CODES,
